@@ -5,7 +5,7 @@ import random
 
 import numpy as np
 
-from vlib import evlog, gens, instr_mp, models
+from vlib import evlog, gens, instr_mp, models, tilegen
 from vlib import ref_quadtree as rq
 
 PROPERTY = "C03"
@@ -24,6 +24,7 @@ RULE = (
     'nt-boundary delays, a worker SIGKILLed on an item, and os.fork refused for the first or second worker (the stage must report it or'
     ' still do everything).'
     ' Round 8: pyramid objects counted / visited at another depth before their depth attribute is set.'
+    " Round 9: stage 'mtan_mem' - in-memory multi-TAN collections of PIL-backed bitmaps and of arrays, serial vs 2-3 workers (every segment's own value must appear in the tiles, which equal the serial tiles)."
 )
 ASSUMPTIONS = [
     "event-log file order respects happens-before",
@@ -67,6 +68,9 @@ def cases(tier, seed):
     for i in range(6 if tier == "quick" else 80):
         out.append(dict(stage="after_failure", profile="stall", par=R.choice([2, 3]), seed=R.randrange(1 << 30), long_item=False, kill_item=False,
                         pyr=gens.gen_pyramid(R, maxdepth=3, mindepth=1, sub_p=0.2)))
+    # in-memory collections (PIL-backed bitmaps and arrays) through the multi-TAN stage
+    for i in range(6 if tier == "quick" else 60):
+        out.append(dict(stage="mtan_mem", kind=["pil", "array", "pil"][i % 3], par=R.choice([2, 3]), profile="natural", seed=R.randrange(1 << 30)))
     # the operating system refuses to start (some of) the workers: the stage must say so or still do everything
     for i in range(12 if tier == "quick" else 150):
         st = ["leaves", "mtan", "u8", "mwcs", "doone", "mtan"][i % 6]
@@ -622,7 +626,85 @@ def _brief(spec):
     return s
 
 
+def case_mtan_mem(spec, workdir):
+    """multi-TAN tiling of an IN-MEMORY collection (bitmap images backed by PIL objects, or arrays) on a common grid, serial vs
+    2-3 workers: every segment (its own constant value) is processed exactly once - it shows up in the tiles, which equal the
+    serial tiles"""
+    from astropy.wcs import WCS
+    from toasty import builder, collection, multi_tan, pyramid
+    from toasty.image import Image, ImageDescription, ImageMode
+
+    R = random.Random(spec["seed"])
+    kind = spec["kind"]
+    SEG = 256
+    grid = [(c, r) for r in range(R.choice([1, 2])) for c in range(R.choice([2, 3]))]
+
+    def seg_wcs(col, row):
+        w = WCS(naxis=2)
+        w.wcs.ctype = ["RA---TAN", "DEC--TAN"]
+        w.wcs.crval = [30.0, 10.0]
+        w.wcs.cdelt = [-1e-3, -1e-3]
+        w.wcs.crpix = [400.5 - col * SEG, 300.5 - row * SEG]
+        return w
+
+    shape = (SEG, SEG, 3) if kind == "pil" else (SEG, SEG)
+
+    class Mem(collection.ImageCollection):
+        def descriptions(self):
+            for i, (c, r) in enumerate(grid):
+                d = ImageDescription(mode=ImageMode.RGB if kind == "pil" else ImageMode.F32, shape=shape, wcs=seg_wcs(c, r))
+                d.collection_id = "seg%d" % i
+                yield d
+
+        def images(self):
+            for i, (c, r) in enumerate(grid):
+                if kind == "pil":
+                    img = Image.from_pil(Image.from_array(np.full(shape, 30 * (i + 1), np.uint8)).aspil(), wcs=seg_wcs(c, r), default_format="png")
+                else:
+                    img = Image.from_array(np.full(shape, float(30 * (i + 1)), np.float32), wcs=seg_wcs(c, r), default_format="npy")
+                img.collection_id = "seg%d" % i
+                yield img
+
+    fmt = "png" if kind == "pil" else "npy"
+
+    def run(par, out):
+        pio = pyramid.PyramidIO(out, default_format=fmt)
+        proc = multi_tan.MultiTanProcessor(Mem())
+        proc.compute_global_pixelization(builder.Builder(pio))
+        proc.tile(pio, parallel=par, cli_progress=False)
+        return {p: tilegen.read_tile(out, p, fmt) for p in tilegen.list_tiles(out, fmt)}
+
+    ser = run(1, os.path.join(workdir, "serial"))
+    par = run(spec["par"], os.path.join(workdir, "par"))
+    probs = []
+
+    def seen(tiles):
+        out = set()
+        for a in tiles.values():
+            a = a[..., 0] if a.ndim == 3 else a
+            out |= {int(v) // 30 - 1 for v in np.unique(a[np.isfinite(a)]) if v > 0 and int(v) % 30 == 0}
+        return out
+
+    want = set(range(len(grid)))
+    if seen(ser) != want:
+        probs.append("serial run: segments present in the tiles %s, collection has %s" % (sorted(seen(ser)), sorted(want)))
+    if seen(par) != want:
+        probs.append("%d workers: segments %s were never processed (present: %s) although tile() returned normally" % (spec["par"], sorted(want - seen(par)), sorted(seen(par))))
+    if set(ser) != set(par):
+        probs.append("tile sets differ between serial and %d workers: %s" % (spec["par"], sorted(set(ser) ^ set(par))[:6]))
+    for p in sorted(set(ser) & set(par)):
+        if not np.array_equal(ser[p], par[p], equal_nan=ser[p].dtype.kind == "f"):
+            probs.append("tile %s differs between serial and %d workers" % (p, spec["par"]))
+            break
+    r = dict(counters=dict(runs_stage_mtan_mem=1, items_checked=len(grid), **{"mem_collection_" + kind: 1}), nontrivial=len(grid) >= 2, sample=dict(spec=spec, segments=len(grid)))
+    if probs:
+        r.update(status="violation", key="input-handoff:in-memory-collection", detail="; ".join(probs[:4]))
+    return r
+
+
 def run_case(spec, workdir):
+    if spec["stage"] == "mtan_mem":
+        return case_mtan_mem(spec, workdir)
     if spec["stage"] == "after_failure":
         return case_after_failure(spec, workdir)
     if spec["stage"] == "leaves":
